@@ -135,7 +135,15 @@ static void run_case(long idx)
     gbuf src = gb_alloc(n, 0); memcpy(src.p, m, n); free(m);           /* exact-size source: any over-read faults */
     /* plausible content size for capacity choices */
     unsigned long long const fcs = ZSTD_getFrameContentSize(it->p, it->n); size_t const guess = (fcs < (1u << 22)) ? (size_t)fcs : (it->n * 8 + 1000 < (1u << 22) ? it->n * 8 + 1000 : (1u << 22));
-    size_t caps[4] = { 0, 1 + vr_u(&r, 16), guess, guess + 1 + vr_u(&r, 70000) }; size_t const cap = caps[vr_u(&r, 4)];
+    size_t caps[4] = { 0, 1 + vr_u(&r, 16), guess, guess + 1 + vr_u(&r, 70000) }; size_t cap = caps[vr_u(&r, 4)];
+    if (vr_chance(&r, 1, 5)) {   /* capacity class "literal-buffer placement": the one-shot decoder keeps a block's literals inside dst when the room left is
+                                  * more than blockSizeMax + margins + litSize: pick capacities around that edge for a block of the original frame */
+        ZSTD_frameHeader fh; if (ZSTD_getFrameHeader(&fh, it->p, it->n) == 0 && fh.frameType == ZSTD_frame) {
+            refdec_info_t I; memset(&I, 0, sizeof I); I.keep_blocks = 1; uint8_t* tmp = (uint8_t*)malloc(1u << 22); refdec_dict_t* rd = it->dict ? refdec_dict_create(it->dict, it->dl, 0) : NULL;
+            refdec_decode(tmp, 1u << 22, it->p, it->n, rd, &I, 1);
+            if (I.nb_blocks) { size_t const b = vr_u64(&r, I.nb_blocks); size_t before = 0; for (size_t i = 0; i < b; i++) before += I.blocks[i].rsize;
+                if (I.blocks[b].type == 2) { cap = before + fh.blockSizeMax + 32 + I.blocks[b].lit_rsize + vr_u(&r, 72) - 4; v_stat("caps_at_literal_buffer_edge", 1); } }
+            refdec_info_free(&I); refdec_dict_free(rd); free(tmp); } }
     v_budget(5.0 + 2e-6 * (double)(n + cap) * 40);       /* all entry points together; linear in sizes */
     v_stat("inputs", 1); v_cell("mutation", "%s|%s", g_origin, g_kind);
     const uint8_t* dict = it->dict; size_t dl = it->dl; uint8_t rdict[300]; if (!dict && vr_chance(&r, 1, 4)) { dl = 8 + vr_u(&r, 292); vr_fill(&r, rdict, dl); if (vr_chance(&r, 1, 2)) { rdict[0] = 0x37; rdict[1] = 0xA4; rdict[2] = 0x30; rdict[3] = 0xEC; } dict = rdict; }
